@@ -1,6 +1,6 @@
 from mindsdb_sql.parser.ast.base import ASTNode
 from mindsdb_sql.parser.utils import indent
-from mindsdb_sql.parser.ast.select.identifier import name_to_string
+from mindsdb_sql.parser.ast.select.identifier import name_to_string, TWO_WORD_KEYWORD_STARTS
 
 # the types of objects that are keywords of DESCRIBE
 DESCRIBE_TYPE_KEYWORDS = ('JOB', 'SKILL', 'CHATBOT', 'TRIGGER', 'KNOWLEDGE_BASE', 'PROJECT', 'ML_ENGINE')
@@ -36,6 +36,9 @@ class Describe(ASTNode):
             if type_str.upper() not in DESCRIBE_TYPE_KEYWORDS:
                 # it is read as a name
                 type_str = name_to_string(type_str)
+                if type_str.upper() in TWO_WORD_KEYWORD_STARTS:
+                    # together with the name behind it would be read as one keyword
+                    type_str = f'`{type_str}`'
             type_str = f' {type_str}'
         return f'DESCRIBE{type_str} {str(self.value)}'
 
